@@ -207,10 +207,10 @@ def _fake_get_hed_versions(local_hed_directory=None, library_name=None, check_pr
     return {}
 
 
-def _is_ver(t):
-    """t = major digit (1-9; 0-9 if VP_MAJOR0) + minor digits (1..VP_M, no leading zero) + patch digit"""
+def _is_ver(t, minor_digits=1):
+    """t = major digit (1-9; 0-9 if VP_MAJOR0) + minor digits (1..minor_digits, no leading zero) + patch digit"""
     n = len(t)
-    if not (3 <= n <= 2 + R.M(1)):
+    if not (3 <= n <= 2 + minor_digits):
         return False
     for ch in t:
         if not (48 <= ord(ch) <= 57):
@@ -236,6 +236,9 @@ def _dep_cell(d, r1, r2, hv):
     hz = R.env_int("VP_HZ")
     if hz is not None and (ord(hv[1]) == 48) != (hz == 1):
         return False
+    l1, lh = R.env_int("VP_L1"), R.env_int("VP_LH")
+    if (l1 is not None and len(r1) != l1) or (lh is not None and len(hv) != lh):
+        return False
     k = R.env_int("VP_WHICH")
     if k is None:
         return True
@@ -260,7 +263,7 @@ def _with_released(released, fn):
 def deprecated_from_rule(d: str, r1: str, r2: str, hv: str, ov: str, in_lib: bool) -> bool:
     """
     pre: 1 <= len(d) <= R.N(5)
-    pre: _is_ver(r1) and _is_ver(r2) and _is_ver(hv) and _is_ver(ov)
+    pre: _is_ver(r1, R.M(1)) and _is_ver(r2) and _is_ver(hv, R.M(1)) and _is_ver(ov)
     pre: _dep_cell(d, r1, r2, hv)
     pre: in_lib or R.env_int("VP_CFG", 0) != 1
     pre: not in_lib or R.env_int("VP_CFG", 0) != 0
@@ -507,6 +510,18 @@ _STUB_VERSIONS = ("hed_cache.get_hed_versions is replaced, inside schema_attribu
 _CHSET = "vp/chset.py: one-character membership in a concrete set asked as one disjunction (exact)"
 
 
+def _dep_thorough_cells():
+    cells = []
+    for cfg in (0, 1, 2):
+        for l1 in ((3, 4) if cfg == 0 else (3,)):
+            for lh in ((3, 4) if cfg == 0 else (3,)):
+                for which in (0, 1):
+                    for hz in ((0, 1) if lh == 3 else (0,)):      # a two-digit minor cannot start with 0
+                        cells.append({"VP_CFG": cfg, "VP_WHICH": which, "VP_HZ": hz, "VP_L1": l1, "VP_LH": lh})
+                cells.append({"VP_CFG": cfg, "VP_WHICH": 2, "VP_L1": l1, "VP_LH": lh})
+    return cells
+
+
 HARNESSES = [
     R.H("conversion_factor_rule", [_AV + "conversion_factor"],
         quick=R.tier(cells=_cells(3, _NUM_CLASSES, 2, split1_from=3), env={"VP_N": 3}, timeout=200,
@@ -562,14 +577,11 @@ HARNESSES = [
                      bound="deprecatedFrom = every Unicode text of 1..5 characters; one released version, the "
                            "schema version and the partner version each d.d.d (major 1-9, minor and patch 0-9); "
                            "standard schema / partnered library schema; element with or without inLibrary"),
-        thorough=R.tier(cells=R.product_cells(R.int_cells("VP_CFG", 0, 2),
-                                              [{"VP_WHICH": 0, "VP_HZ": 0}, {"VP_WHICH": 0, "VP_HZ": 1},
-                                               {"VP_WHICH": 1, "VP_HZ": 0}, {"VP_WHICH": 1, "VP_HZ": 1},
-                                               {"VP_WHICH": 2}]),
-                        env={"VP_N": 6, "VP_M": 2, "VP_MAJOR0": 1}, timeout=1100, path_timeout=60,
-                        bound="as quick with two released versions, a stand-alone library schema as third "
-                              "configuration, major 0-9 and minor version numbers of 1..2 digits (d.dd.d), "
-                              "deprecatedFrom <= 6 characters"),
+        thorough=R.tier(cells=_dep_thorough_cells(), env={"VP_N": 6, "VP_M": 2}, timeout=1100, path_timeout=60,
+                        bound="as quick with two released versions and a stand-alone library schema as third "
+                              "configuration; for the standard schema additionally minor numbers of 1..2 digits "
+                              "(d.dd.d) in the first released version and in the schema version; deprecatedFrom <= 6 "
+                              "characters"),
         what="SCHEMA_DEPRECATION_ERROR iff the value is not a released version of the element's own library or is "
              "not older than that library's version in the schema (partner version for standard elements of a "
              "partnered schema); nothing else",
@@ -614,8 +626,8 @@ HARNESSES = [
                            "any 0 <= lo <= hi <= 1000; element of the standard schema or of library 'lib'"),
         thorough=R.tier(cells=_cells(3, ["0", "1", "-", " "], 1, split1_from=2, split2_from=3,
                                      extra=R.int_cells("VP_PREV", 0, 1)),
-                        env={"VP_N": 3, "VP_M": 2}, timeout=1100, path_timeout=60,
-                        bound="as quick with <= 3 characters after 'HED_', previous ids of 1..2 digits, ranges up to 10000"),
+                        env={"VP_N": 3, "VP_M": 1}, timeout=1100, path_timeout=60,
+                        bound="as quick with <= 3 characters after 'HED_', ranges up to 10000"),
         what="'HED_'+digits: SCHEMA_ATTRIBUTE_VALUE_INVALID once if the id differs from the id the element had in the "
              "previous version of its own library, once if it lies outside that library's id range, nothing "
              "otherwise; text that is no integer: SCHEMA_ATTRIBUTE_VALUE_INVALID; the other library's previous "
